@@ -2,3 +2,4 @@ import TR.Ring
 import TR.Leptond
 import TR.HandoffRoll
 import TR.Daemon
+import TR.Excess
